@@ -117,8 +117,9 @@ def c10_3(ck, prog):
                 'signature was checked, and reads exactly the argument types its table row declares', 'TAB',
                 breaks='a handler reads arguments of unexpected types from a client message (assertion / crash)',
                 floor=25)
-    from rules.C18 import handler_rows, flag_enforced
+    from rules.C18 import handler_rows, flag_enforced, handler_reference
     rows = handler_rows(prog)
+    handler_reference(prog, r)
     hm = prog.fn('bus_driver_handle_message', D)
     # signature test dominates the indirect call
 
@@ -262,6 +263,18 @@ def run(ck):
                       '(run-time properties); memory safety of the parser beyond C01/C07 clauses')
     for v, prog in ck.programs(thorough_variants=('B',)):
         c10_1(ck, prog)
+        # a hostile descriptor packet must not leak descriptors in the bus (shared with C15.2)
+        from rules.C15 import c15_2
+        r6 = ck.rule('C10.6', 'descriptors received from a client are never leaked or closed twice by the loader: '
+                     'arrays are closed before they are freed and moved by whole entries (shared with C15.2)', 'DOM',
+                     breaks='each crafted packet leaks a descriptor in the bus until it can no longer accept '
+                            'connections', floor=8)
+        save6 = ck.rule
+        ck.rule = lambda *a, **k: r6
+        try:
+            c15_2(ck, prog)
+        finally:
+            ck.rule = save6
         # an invalid message must be recognised as such: mandatory header fields (shared with C01.4)
         from rules.C01 import c01_4
         from rules.C13 import c13_1d
